@@ -212,6 +212,9 @@ def gen_pipeline(rnd):
     n = rnd.randint(1, 7)
     fail_at = rnd.randrange(n) if rnd.random() < 0.6 else None
     depth = rnd.choice(["element", "keyword", "argument"])
+    if n >= 2 and rnd.random() < 0.2:
+        # an element that is an object already (as a !Tag leaves it) and cannot be put in front of its successor
+        fail_at, depth = rnd.randrange(n - 1), rnd.choice(["binder_TypeError", "binder_KeyError"])
     return {"pipeline": n, "fail_at": fail_at, "depth": depth, "fail_type": rnd.choice(["vfact.boom", "vfact.nosuch", "vfact_nosuch.thing"]),
             "where": rnd.choice(["", "cfg", ".sites[1]"]), "tree": {"pipeline": n, "fail_at": fail_at, "depth": depth}, "fail": None, "purge": False, "share": None, "extra": None}
 
@@ -223,6 +226,22 @@ def run_pipeline(case, result):
     n, fail_at = case["pipeline"], case["fail_at"]
     elements = [{"__type__": "vfact.make", "nid": i, "label": "e%d" % i} for i in range(n)]
     want_where = None
+    if fail_at is not None and case["depth"].startswith("binder_"):
+        class Binder:
+            def __rshift__(self, other):
+                raise {"TypeError": TypeError, "KeyError": KeyError}[case["depth"][7:]]("this element cannot be chained to %r" % (other,))
+
+        elements[fail_at] = Binder()
+        kwargs = {"where": case["where"]} if case["where"] else {}
+        result.count("pipelines_with_an_element_that_cannot_be_chained")
+        try:
+            out = PipelineTranslator().translate_hierarchy({"pipeline": elements}, **kwargs)
+        except Exception:  # noqa: B902 - which kind is not judged: the element is nobody's definition
+            built = [entry["kwargs"].get("nid") for entry in faclog.LOG]
+            if sorted(built) != list(range(fail_at + 1, n)):
+                return [("pipeline of %d elements, element %d cannot be chained: definitions %r were built, expected each of those behind it exactly once" % (n, fail_at, built), None)]
+            return []
+        return [("pipeline of %d elements, element %d cannot be chained to its successor, yet translation returned %.120r" % (n, fail_at, out), None)]
     if fail_at is not None:
         broken = {"__type__": case["fail_type"], "nid": 100}
         if case["depth"] == "element":
@@ -325,7 +344,7 @@ def gen_case(rnd, spec):
         if fail is not None and fail["nid"] == tree.get("nid") and fail["kind"] == "wrong_args":
             extra = None
     return {"tree": tree, "fail": fail, "where": rnd.choice(["", "", "", "cfg", ".pipeline[2]"]),
-            "purge": rnd.random() < 0.35, "share": share, "extra": extra}
+            "purge": rnd.random() < 0.35, "share": share, "extra": extra, "odd_containers": share is None and rnd.random() < 0.15}
 
 
 def container_paths(tree, path=()):
@@ -429,6 +448,22 @@ def execute(case, result):
         sh = case["share"]
         get_at(tree, sh["into"])[sh["key"]] = get_at(tree, sh["from"])  # the very same object, twice
         return execute_shared(case, tree, result)
+    if case.get("odd_containers"):
+        # what other loaders produce: mappings and sequences that derive from dict / list (ordered mappings, lists with line numbers)
+        import collections
+
+        class Listing(list):
+            line = 7
+
+        def derive(value):
+            if isinstance(value, dict):
+                return collections.OrderedDict((k, derive(v)) for k, v in value.items())
+            if isinstance(value, list):
+                return Listing(derive(v) for v in value)
+            return value
+
+        tree = derive(tree)
+        result.count("trees_of_dict_and_list_subclasses")
     nodes = type_nodes(tree, case["where"])
     by_nid = {n["nid"]: (n, path) for n, path in nodes}
     kwargs = {"where": case["where"]} if case["where"] else {}
@@ -627,7 +662,7 @@ def run_shard(spec):
 
 
 def finish(total, tier):
-    needed = ["valid_trees", "pipelines_translated_by_the_pipeline_translator", "failing_pipeline_elements_located", "definitions_naming_builtin_or_derived_types_or_one_shot_arguments", "corrected_trees_retranslated_by_the_same_translator", "failing_trees", "lists_with_equal_items_of_which_the_later_fails", "failing_trees_with_nested_second_failure", "nodes_constructed", "order_constraints_checked", "cases_with_fresh_imports",
+    needed = ["valid_trees", "trees_of_dict_and_list_subclasses", "pipelines_with_an_element_that_cannot_be_chained", "pipelines_translated_by_the_pipeline_translator", "failing_pipeline_elements_located", "definitions_naming_builtin_or_derived_types_or_one_shot_arguments", "corrected_trees_retranslated_by_the_same_translator", "failing_trees", "lists_with_equal_items_of_which_the_later_fails", "failing_trees_with_nested_second_failure", "nodes_constructed", "order_constraints_checked", "cases_with_fresh_imports",
               "translations_with_extra_construct_keywords",
               "trees_with_shared_container", "shared_type_nodes_checked"]
     needed += ["failing_" + k for k in FAILURES]
